@@ -46,8 +46,13 @@ broadcast axiom fn axiom_sort_strings(a: Seq<String>, b: Seq<String>)
     ensures #[trigger] sort_post(a, b) ==> strs(b).to_multiset() == strs(a).to_multiset() && sorted_strs(strs(b)) && b.len() == a.len();
 // T3: json!({ K: v }) with a single member whose value is a string
 
+// json!({ K: v }) with a single member: v is a String (digest) or a &Jwk (holder key)
+pub trait JsonMember { spec fn member_j(&self) -> J; }
+impl JsonMember for String { open spec fn member_j(&self) -> J { J::Str(self@) } }
+impl<'a> JsonMember for &'a jsonwebtoken::jwk::Jwk { open spec fn member_j(&self) -> J { jwk_to_j(**self) } }
 #[verifier::external_body]
-pub fn json_object1(k: &str, v: &String) -> (r: Value)
-    ensures jv(r) == J::Obj(seq![(k@, J::Str(v@))])
+pub fn json_object1<T: JsonMember>(k: &str, v: &T) -> (r: Value)
+    ensures jv(r) == J::Obj(seq![(k@, v.member_j())])
 { unimplemented!() }
+pub uninterp spec fn jwk_to_j(k: jsonwebtoken::jwk::Jwk) -> J;      // serde serialisation of a Jwk (A-JSON)
 use serde_json::Map as SJMap;
